@@ -789,7 +789,7 @@ class Engine:
             r = self.class_attr(st, v, v.cls, name)
             if r is not None:
                 return r
-            if v.kind in ("list", "dict", "set") or v.cls in getattr(self.reg, "external_classes", ()):
+            if v.kind in ("list", "dict", "set", "tlist") or v.cls in getattr(self.reg, "external_classes", ()):
                 return [("ok", st, VFunc("bound", v, name))]
             if default is not None:
                 return [("ok", st, default)]
@@ -1040,7 +1040,7 @@ class Engine:
                 ci = self.class_info(c)
                 if ci is not None and name in ci.methods:
                     raise Unsupported(f"method {key} has no contract")
-        if isinstance(recv, VObj) and recv.kind in ("list", "dict", "set"):
+        if isinstance(recv, VObj) and recv.kind in ("list", "dict", "set", "tlist"):
             return B.container_method(self, st, recv, name, pos, kw)
         if isinstance(recv, VOpaque):
             return [("ok", st, VOpaque(recv.what + "." + name + "()"))]
